@@ -78,6 +78,41 @@ func (x *Exec) model(fn *ssa.Function, name string) modelFn {
 		return func(st *State, fr *Frame, fn *ssa.Function, args []*Val, pos token.Pos, cont retFn) {
 			cont(st, x.newError(st, fn.Signature.Results().At(0).Type()))
 		}
+	case "sort.Search":
+		// sort.Search(n, f) returns some r in [0,n] with f(r) (if r < n) and !f(r-1) (if r > 0):
+		// exactly what its binary search establishes, with no monotonicity assumed. f is run
+		// symbolically (for its safety obligations too) at r and r-1, clamped into [0,n).
+		return func(st *State, fr *Frame, fn *ssa.Function, args []*Val, pos token.Pos, cont retFn) {
+			n, f := args[0].T, args[1]
+			intT := types.Typ[types.Int]
+			if f.K != kFunc || f.Fn == nil {
+				x.note("sort.Search with unknown predicate: result only bounded")
+				r := x.freshTyped(st, "search", intT)
+				x.assume(st, And(Ge(r.T, IntLit(0)), Or(Le(r.T, n), Eq(r.T, IntLit(0)))), "sort.Search range")
+				cont(st, r)
+				return
+			}
+			x.fork2(st, Gt(n, IntLit(0)), "sort.Search n>0", func(st *State) {
+				r := x.freshTyped(st, "search", intT)
+				x.assume(st, And(Ge(r.T, IntLit(0)), Le(r.T, n)), "sort.Search range")
+				i1 := scalar(Ite(Lt(r.T, n), r.T, Sub(n, IntLit(1))), intT)
+				x.callFunc(st, fr, f.Fn, []*Val{i1}, f.Bind, pos, func(st *State, v1 *Val) {
+					x.assume(st, Implies(Lt(r.T, n), v1.T), "sort.Search f(r)")
+					i2 := scalar(Ite(Gt(r.T, IntLit(0)), Sub(r.T, IntLit(1)), IntLit(0)), intT)
+					x.callFunc(st, fr, f.Fn, []*Val{i2}, f.Bind, pos, func(st *State, v2 *Val) {
+						x.assume(st, Implies(Gt(r.T, IntLit(0)), Not(v2.T)), "sort.Search !f(r-1)")
+						x.ghostCall(st, "sort.Search", []*Val{args[0]})
+						x.ghostRet(st, "sort.Search", r)
+						cont(st, r)
+					})
+				})
+			}, func(st *State) {
+				r := scalar(IntLit(0), intT)
+				x.ghostCall(st, "sort.Search", []*Val{args[0]})
+				x.ghostRet(st, "sort.Search", r)
+				cont(st, r)
+			})
+		}
 	case "sync/atomic.AddUint64", "sync/atomic.AddInt64", "sync/atomic.AddInt32", "sync/atomic.AddUint32":
 		return func(st *State, fr *Frame, fn *ssa.Function, args []*Val, pos token.Pos, cont retFn) {
 			x.note("sync/atomic modelled as plain sequential access")
